@@ -7,6 +7,8 @@ miss=0; n=0
 for d in seeded/C[0-9][0-9]?; do
     name=$(basename $d); id=$(echo $name | cut -c1-3)
     [ -f $d/patch.diff ] || continue
+    # REGRESS_IDS="C02 C10" restricts the run to those properties
+    if [ -n "$REGRESS_IDS" ]; then case " $REGRESS_IDS " in *" $id "*) ;; *) continue ;; esac; fi
     n=$((n+1))
     out=$(tools/mutant.sh $d/patch.diff $TIER $id 2>&1 | grep -v conda)
     case "$out" in
